@@ -350,8 +350,12 @@ func (c *Ctx) GuardOpt(rule string, fn *ssa.Function, eff Effect, opt GuardOpts,
 		}
 		return
 	}
+	if st, ok := eff.(StoreTo); ok {
+		lintOperand(fn, rule, st.Addr)
+	}
 	for _, gs := range guards {
 		g := parseGuard(gs)
+		lintGuard(fn, rule, g)
 		removed, descr := guardEdges(fn, g)
 		c.EdgesRemoved += len(removed)
 		limit := reachUnguarded(fn, removed, g.afters)
@@ -410,6 +414,7 @@ func (c *Ctx) GuardTrue(rule string, fn *ssa.Function, idx int, guards ...string
 	c.FuncsAnalysed[fname] = true
 	for _, gs := range guards {
 		g := parseGuard(gs)
+		lintGuard(fn, rule, g)
 		removed, _ := guardEdges(fn, g)
 		c.EdgesRemoved += len(removed)
 		limit := reachUnguarded(fn, removed, g.afters)
